@@ -323,7 +323,9 @@ pub fn run(cfg: &Cfg) -> Stats {
             match i % 8 {
                 7 => {
                     // one long piece whose length sits on a power-of-two threshold (buffers, block sizes, widths)
-                    let d = if i % 16 == 7 { gen::gen_long_stream(&mut rng, 16384, true) } else { gen::threshold_document(gen::long_len(&mut rng, 16384), (i % 4) as u8, i % 3 == 0) };
+                    // (interpreter lanes: thresholds up to 1 KiB, so that no shard is minutes longer than the others)
+                    let thr = if cfg.tier == Tier::Tiny { 1024 } else { 16384 };
+                    let d = if i % 16 == 7 { gen::gen_long_stream(&mut rng, thr, true) } else { gen::threshold_document(gen::long_len(&mut rng, thr), (i % 4) as u8, i % 3 == 0) };
                     eval_bytes(&d, &mut st, &mut rng, "long_threshold");
                 }
                 0 => {
